@@ -306,8 +306,17 @@ func (self *PathNode) scanChildren(p *binary.BinaryProtocol, recurse bool, opts 
 		// must set list element type first, so that handleChild will can handle the element correctly
 		self.et = desc.Elem().Type()
 		listIndex := 0
+		isPacked := desc.IsPacked()
+		if isPacked {
+			// scalar elements are not always packed ([packed = false]): the wire type of the tag tells the layout
+			_, wt, _, tagErr := p.ConsumeTagWithoutMove()
+			if tagErr != nil {
+				return wrapError(meta.ErrRead, "PathNode.scanChildren: invalid list tag", tagErr)
+			}
+			isPacked = wt == proto.BytesType
+		}
 		// packed formats: [ListFieldTag][ListByteLen][VVVVV]...
-		if desc.IsPacked() {
+		if isPacked {
 			if _, _, _, tagErr := p.ConsumeTag(); tagErr != nil {
 				return wrapError(meta.ErrRead, "PathNode.scanChildren: invalid list tag", tagErr)
 			}
@@ -453,6 +462,13 @@ func (self *PathNode) handleChild(in *[]PathNode, lp *int, cp *int, p *binary.Bi
 			return nil, wrapError(meta.ErrRead, "invalid start", nil)
 		}
 		skipType = proto.BytesType
+		if IsPacked {
+			// scalar elements are not always packed ([packed = false]): the wire type of the tag tells the layout
+			IsPacked = proto.WireType(buf[start]&7) == proto.BytesType
+			if !IsPacked {
+				skipType = desc.Elem().WireType()
+			}
+		}
 	}
 
 	// notice: when parent node is packed LIST, the size is not calculated in order to fast read all elements
